@@ -35,15 +35,26 @@ theorem readStrBody_plain (s rest acc : List Char) (f : Nat) (hf : s.length + 1 
 
 /-- **C15_desc_simple.**  A non-empty description without newline, quote, backslash or NUL is printed
 as `"…"` followed by a newline and reads back exactly, whatever follows. -/
-theorem C15_desc_simple (d k : List Char) (hne : d ≠ [])
+theorem escapeDesc_plain (b : Bool) (d : List Char) (hd : ∀ c ∈ d, c ≠ '"' ∧ c ≠ '\\') : escapeDesc b d = d := by
+  induction d with
+  | nil => rfl
+  | cons c r ih =>
+    obtain ⟨h1, h2⟩ := hd c (List.mem_cons_self ..)
+    simp [escapeDesc, h1, h2, ih (fun x hx => hd x (List.mem_cons_of_mem _ hx))]
+
+theorem C15_desc_simple (raw : Bool) (d k : List Char) (hne : d ≠ [])
     (hd : ∀ c ∈ d, c ≠ '"' ∧ c ≠ '\\' ∧ c.toNat ≠ 0 ∧ c ≠ '\n') :
-    readStringFull stdTbl (writeDesc d ++ k) = some (d, '\n' :: k) := by
+    readStringFull stdTbl (writeDesc raw d ++ k) = some (d, '\n' :: k) := by
+  have hesc : (if raw then d else escapeDesc false d) = d := by
+    cases raw
+    · simpa using escapeDesc_plain false d (fun c hc => ⟨(hd c hc).1, (hd c hc).2.1⟩)
+    · rfl
   have hany : d.any (fun c => c == '\n' || c == '"') = false := by
     rw [List.any_eq_false]; intro c hc
     obtain ⟨h1, _, _, h4⟩ := hd c hc
     simp [h1, h4]
   have hemp : d.isEmpty = false := by cases d <;> simp_all
-  simp only [writeDesc, hemp, hany, Bool.false_eq_true, if_false, List.cons_append, List.append_assoc]
+  simp only [writeDesc, hemp, hany, hesc, Bool.false_eq_true, if_false, List.cons_append, List.append_assoc]
   cases d with
   | nil => exact absurd rfl hne
   | cons c r =>
@@ -59,13 +70,189 @@ theorem C15_desc_simple (d k : List Char) (hne : d ≠ [])
       (by simp only [List.length_cons, List.length_append]; omega) (fun x hx => ⟨(hd x hx).1, (hd x hx).2.1, (hd x hx).2.2.1⟩)
     simpa using this
 
+theorem readEscaped_bs (r : List Char) : readEscaped stdTbl ('\\' :: r) = some ('\\', r) := by
+  simp [readEscaped, stdTbl]
+
+theorem readEscaped_quote (r : List Char) : readEscaped stdTbl ('"' :: r) = some ('"', r) := by
+  simp [readEscaped, stdTbl]
+
+/-- the block-string reader over an escaped description followed by the closing line: it returns the
+description itself (and the newline the printer puts before the closing quotes) -/
+theorem readBlock_escaped : ∀ (n : Nat) (d : List Char), d.length ≤ n → (∀ c ∈ d, c.toNat ≠ 0) →
+    ∀ (acc k : List Char) (fuel : Nat), (escapeDesc true d).length + 2 ≤ fuel →
+    readBlock stdTbl fuel (escapeDesc true d ++ '\n' :: '"' :: '"' :: '"' :: k) acc = some (acc.reverse ++ d ++ ['\n'], k) := by
+  intro n
+  induction n with
+  | zero =>
+    intro d hl _ acc k fuel hf
+    have : d = [] := by cases d <;> simp_all
+    subst this
+    simp only [escapeDesc, List.length_nil] at hf
+    match fuel, hf with
+    | f + 2, _ => simp [escapeDesc, readBlock]
+  | succ n ih =>
+    intro d hl hnz acc k fuel hf
+    cases d with
+    | nil =>
+      simp only [escapeDesc, List.length_nil] at hf
+      match fuel, hf with
+      | f + 2, _ => simp [escapeDesc, readBlock]
+    | cons c rest =>
+      have hrest : ∀ x ∈ rest, x.toNat ≠ 0 := fun x hx => hnz x (List.mem_cons_of_mem _ hx)
+      have hc0 : c.toNat ≠ 0 := hnz c (List.mem_cons_self ..)
+      have hlr : rest.length ≤ n := by simp at hl; omega
+      by_cases hbs : c = '\\'
+      · subst hbs
+        simp only [escapeDesc, if_true, List.length_cons] at hf
+        match fuel, hf with
+        | f + 1, hf =>
+          have := ih rest hlr hrest ('\\' :: acc) k f (by omega)
+          simp [escapeDesc, readBlock, readEscaped_bs, this]
+      · by_cases hq : c = '"'
+        · subst hq
+          cases rest with
+          | nil =>
+            simp [escapeDesc] at hf
+            match fuel, hf with
+            | f + 2, _ => simp [escapeDesc, readBlock]
+          | cons x rest' =>
+            by_cases hx : x = '"' ∨ x = '\\'
+            · -- the quote is escaped
+              have hcond : (x == '"' || x == '\\') = true := by rcases hx with rfl | rfl <;> decide
+              have hq' : ('"' : Char) ≠ '\\' := by decide
+              have hlen : (escapeDesc true ('"' :: x :: rest')).length = (escapeDesc true (x :: rest')).length + 2 := by
+                simp [escapeDesc, hcond, hq']
+              rw [hlen] at hf
+              match fuel, hf with
+              | f + 1, hf =>
+                have := ih (x :: rest') hlr hrest ('"' :: acc) k f (by omega)
+                simp [escapeDesc, hcond, readBlock, readEscaped_quote] at this ⊢
+                simpa [escapeDesc] using this
+            · -- raw quote followed by a plain character: the reader takes both
+              have hx1 : x ≠ '"' := fun h => hx (Or.inl h)
+              have hx2 : x ≠ '\\' := fun h => hx (Or.inr h)
+              have hcond : (x == '"' || x == '\\') = false := by simp [hx1, hx2]
+              have hlr' : rest'.length ≤ n := by simp at hl; omega
+              have hrest' : ∀ y ∈ rest', y.toNat ≠ 0 := fun y hy => hrest y (List.mem_cons_of_mem _ hy)
+              have hq' : ('"' : Char) ≠ '\\' := by decide
+              have hlen : (escapeDesc true ('"' :: x :: rest')).length = (escapeDesc true rest').length + 2 := by
+                simp [escapeDesc, hcond, hq', hx1, hx2]
+              rw [hlen] at hf
+              match fuel, hf with
+              | f + 1, hf =>
+                have := ih rest' hlr' hrest' (x :: '"' :: acc) k f (by omega)
+                simp only [escapeDesc, hcond, hq', Bool.and_false, Bool.false_eq_true, if_false, hx1, hx2, List.cons_append, List.nil_append,
+                  List.singleton_append, readBlock, if_true]
+                split
+                · rename_i heq; simp only [List.cons.injEq] at heq; exact absurd heq.1 hx1
+                · rename_i heq; simp only [List.cons.injEq] at heq; exact absurd heq.1 hx1
+                · rename_i y r _ _ heq
+                  simp only [List.cons.injEq] at heq
+                  obtain ⟨rfl, rfl⟩ := heq
+                  rw [this]
+                  simp
+                · rename_i heq; simp at heq
+        · have hlen : (escapeDesc true (c :: rest)).length = (escapeDesc true rest).length + 1 := by
+            simp [escapeDesc, hbs, hq]
+          rw [hlen] at hf
+          match fuel, hf with
+          | f + 1, hf =>
+            have := ih rest hlr hrest (c :: acc) k f (by omega)
+            simp [escapeDesc, hbs, hq, readBlock, hc0, this]
+
+/-- **C15_desc_block (D32 repaired).**  Every description that holds a newline or a quote — whatever else it
+holds: backslashes, runs of quotes, `"""`, a quote at either end — is printed as a block string whose text
+reads back as the description between the two newlines the printer adds, whatever follows. -/
+theorem C15_desc_block (d k : List Char) (hany : d.any (fun c => c == '\n' || c == '"') = true)
+    (hnz : ∀ c ∈ d, c.toNat ≠ 0) :
+    readStringFull stdTbl (writeDesc false d ++ k) = some ('\n' :: d ++ ['\n'], k) := by
+  have hemp : d.isEmpty = false := by cases d <;> simp_all
+  simp only [writeDesc, hemp, hany, Bool.false_eq_true, if_false, if_true]
+  have hform : "\"\"\"".toList ++ ['\n'] ++ escapeDesc true d ++ ['\n'] ++ "\"\"\"".toList ++ k =
+      '"' :: '"' :: '"' :: '\n' :: (escapeDesc true d ++ '\n' :: '"' :: '"' :: '"' :: k) := by
+    have h3 : "\"\"\"".toList = ['"', '"', '"'] := by decide
+    simp [h3]
+  rw [hform]
+  simp only [readStringFull]
+  have hstep : ∀ (rest : List Char) (f : Nat), readBlock stdTbl (f + 1) ('\n' :: rest) [] = readBlock stdTbl f rest ['\n'] := by
+    intro rest f; simp [readBlock]
+  have hlen : ('\n' :: (escapeDesc true d ++ '\n' :: '"' :: '"' :: '"' :: k)).length = ((escapeDesc true d).length + 4 + k.length) + 1 := by
+    simp; omega
+  rw [hlen, hstep]
+  have := readBlock_escaped d.length d (Nat.le_refl _) hnz ['\n'] k ((escapeDesc true d).length + 4 + k.length + 1) (by omega)
+  rw [this]
+  simp
+
+/-- the one-line string reader over an escaped description without quotes -/
+theorem readStrBody_escaped (s rest acc : List Char) (f : Nat) (hf : (escapeDesc false s).length + 1 ≤ f)
+    (hs : ∀ c ∈ s, c ≠ '"' ∧ c.toNat ≠ 0) :
+    readStrBody stdTbl f (escapeDesc false s ++ '"' :: rest) acc = some (acc.reverse ++ s, rest) := by
+  induction s generalizing acc f with
+  | nil =>
+    cases f with
+    | zero => simp [escapeDesc] at hf
+    | succ f => simp [escapeDesc, readStrBody]
+  | cons c s ih =>
+    obtain ⟨h1, h3⟩ := hs c (List.mem_cons_self ..)
+    have hs' : ∀ x ∈ s, x ≠ '"' ∧ x.toNat ≠ 0 := fun x hx => hs x (List.mem_cons_of_mem _ hx)
+    by_cases hbs : c = '\\'
+    · subst hbs
+      simp only [escapeDesc, if_true, List.length_cons] at hf
+      cases f with
+      | zero => omega
+      | succ f =>
+        have := ih ('\\' :: acc) f (by omega) hs'
+        simp [escapeDesc, readStrBody, readEscaped_bs, this]
+    · have hlen : (escapeDesc false (c :: s)).length = (escapeDesc false s).length + 1 := by
+        simp [escapeDesc, hbs, h1]
+      rw [hlen] at hf
+      cases f with
+      | zero => omega
+      | succ f =>
+        have := ih (c :: acc) f (by omega) hs'
+        simp [escapeDesc, hbs, h1, readStrBody, h3, this]
+
+/-- **C15_desc_line (D32 repaired).**  A description without newline and quote — backslashes included — is
+printed on one line and reads back exactly. -/
+theorem C15_desc_line (d k : List Char) (hne : d ≠ [])
+    (hd : ∀ c ∈ d, c ≠ '"' ∧ c.toNat ≠ 0 ∧ c ≠ '\n') :
+    readStringFull stdTbl (writeDesc false d ++ k) = some (d, '\n' :: k) := by
+  have hany : d.any (fun c => c == '\n' || c == '"') = false := by
+    rw [List.any_eq_false]; intro c hc
+    obtain ⟨h1, _, h4⟩ := hd c hc
+    simp [h1, h4]
+  have hemp : d.isEmpty = false := by cases d <;> simp_all
+  simp only [writeDesc, hemp, hany, Bool.false_eq_true, if_false, List.cons_append, List.append_assoc]
+  -- the first character after the opening quote is not a quote: the one-line reader is used
+  have hfirst : ∃ c r, escapeDesc false d = c :: r ∧ c ≠ '"' := by
+    cases d with
+    | nil => exact absurd rfl hne
+    | cons c r =>
+      obtain ⟨h1, _, _⟩ := hd c (List.mem_cons_self ..)
+      by_cases hbs : c = '\\'
+      · subst hbs; exact ⟨'\\', '\\' :: escapeDesc false r, by simp [escapeDesc], by decide⟩
+      · exact ⟨c, escapeDesc false r, by simp [escapeDesc, hbs, h1], h1⟩
+  obtain ⟨c, r, hcr, hcq⟩ := hfirst
+  have hopen : readStringFull stdTbl ('"' :: (escapeDesc false d ++ ('"' :: '\n' :: k))) =
+      readString stdTbl ('"' :: (escapeDesc false d ++ ('"' :: '\n' :: k))) := by
+    rw [hcr]
+    unfold readStringFull
+    split
+    · rename_i heq; simp only [List.cons_append, List.cons.injEq] at heq; exact absurd heq.2.1 hcq
+    · rfl
+  simp only [List.singleton_append, List.cons_append, List.nil_append] at hopen ⊢
+  rw [hopen, hcr, List.cons_append, readString_open c _ hcq, ← List.cons_append, ← hcr]
+  have := readStrBody_escaped d ('\n' :: k) [] ((escapeDesc false d ++ '"' :: '\n' :: k).length + 1)
+    (by simp only [List.length_append, List.length_cons]; omega) (fun x hx => ⟨(hd x hx).1, (hd x hx).2.1⟩)
+  simpa using this
+
 /-- **C15_dev_backslash (D32).**  `a \ b` is printed raw; the reader takes `\ ` for an escape and fails. -/
-theorem C15_dev_backslash : readStringFull stdTbl (writeDesc "a \\ b".toList) = none := by decide +kernel
+theorem C15_dev_backslash : readStringFull stdTbl (writeDesc true "a \\ b".toList) = none := by decide +kernel
 
 /-- **C15_dev_triple (D32).**  A description containing `"""` ends the printed block string early: what
 is read back is not what was written. -/
 theorem C15_dev_triple :
-    (readStringFull stdTbl (writeDesc "x \"\"\" y".toList)).map (·.1) ≠ some "\nx \"\"\" y\n".toList := by decide +kernel
+    (readStringFull stdTbl (writeDesc true "x \"\"\" y".toList)).map (·.1) ≠ some "\nx \"\"\" y\n".toList := by decide +kernel
 
 /-- well-formed type expressions: names are non-empty token strings, no `!` directly on a `!` -/
 def TRef.WF : TRef → Prop
